@@ -136,7 +136,7 @@ def fnmocker_verify_pipeline(chk, F, rule, cfg, fn, paths):
             return False
         total = ('call', sums[0].data[1], sums[0].data[2], sums[0].data[3])
         names = L.pipeline_calls(total, own)
-        fwd = names is not None and all(re.search(r'(Iterator>?::(sum|map|enumerate)|IntoIterator>?::into_iter|::iter|Deref>?::deref)$', n) for n in names)
+        fwd = names is not None and all(re.search(r'(Iterator>?::(sum|map|enumerate)|IntoIterator( for [^>]*)?>?::into_iter|::iter|Deref>?::deref)$', n) for n in names)
         chk.ob(rule, 'every pattern of the method is verified: the counts are summed over a forward-complete traversal of this method\'s own patterns', fwd, config=cfg, fn=fn, site='verify-pipeline',
                what='verify pipeline %s' % (names,), found=names)
         # the mapping closure: one CallCounter::verify per element, on the element's own counter, errors = the caller's vector, result = that call's count
@@ -232,7 +232,7 @@ def fnmocker_verify(chk, F, rule, cfg):
                     src = x
                     break
             names = L.pipeline_calls(src, lambda y: y[0] == 'ref' and y[1][1][-1:] == (('f', 'call_patterns'),) and y[1][0] == ('ptr', ('param', 0, 1))) if src else None
-            fwd = names is not None and all(re.search(r'(Iterator>?::next|IntoIterator>?::into_iter|::iter|Iterator>?::enumerate|Iterator>?::map|Deref>?::deref)$', n) for n in names)
+            fwd = names is not None and all(re.search(r'(Iterator>?::next|IntoIterator( for [^>]*)?>?::into_iter|::iter|Iterator>?::enumerate|Iterator>?::map|Deref>?::deref)$', n) for n in names)
             chk.ob(rule, 'the counter verified is the current element\'s, errors go to the caller\'s vector, traversal is forward over this method\'s patterns', ok_recv and ok_err and fwd, config=cfg,
                    fn=fn, site='verify-args', what='verify args recv=%s errs=%s order=%s' % (ok_recv, ok_err, names), found={'receiver': show(recv)[:160], 'errors': show(errs), 'pipeline': names})
         # never-called rule
@@ -284,7 +284,7 @@ def teardown_verifies_all(chk, F, rule, cfg, fn, paths):
                     src = x
                     break
             names = L.pipeline_calls(src, lambda y: y[0] == 'ref' and y[1][1][-1:] == (('f', 'fn_mockers'),)) if src else None
-            ok = names is not None and not any(L.ORDER_DENY.search(n) for n in names) and all(re.search(r'(Iterator>?::next|IntoIterator>?::into_iter|::iter|::values|Deref>?::deref)$', n) for n in names)
+            ok = names is not None and not any(L.ORDER_DENY.search(n) for n in names) and all(re.search(r'(Iterator>?::next|IntoIterator( for [^>]*)?>?::into_iter|::iter|::values|Deref>?::deref)$', n) for n in names)
             errs = strip(e.data[2][1])
             chk.ob(rule, 'every method of the mock is verified (complete traversal of fn_mockers) into one error vector', ok and errs[0] == 'ref' and errs[1][0][0] == 'local', config=cfg, fn=fn, site='verify-all',
                    what='teardown traversal %s' % names, found={'pipeline': names, 'errors': show(errs)})
